@@ -2,6 +2,7 @@ package rules
 
 import (
 	"fmt"
+	"go/constant"
 	"go/token"
 	"go/types"
 	"strings"
@@ -29,6 +30,10 @@ func init() {
 	Register(&Rule{ID: "ROOTSWAP", Props: []string{"C03", "C13"}, Min: 1,
 		Doc: "flush replaces Mast.root by the returned name only after wg.Wait and on the success edge of both error tests; the stored value is the name returned.",
 		Run: runROOTSWAP})
+	Register(&Rule{ID: "FLUSHNAME", Props: []string{"C03", "C05"}, Min: 2,
+		Doc: "the name flush reports with success is the one the node store returned for the root; the empty name (MakeRoot then records 'no root node') is reported only where the tree is known to be empty: under root == nil or under isEmpty(root node). " +
+			"A success with the empty name anywhere else (no store configured, an early exit) makes MakeRoot hand out a Root that claims the tree's size but names no node.",
+		Run: runFLUSHNAME})
 	Register(&Rule{ID: "CLEANMARK", Props: []string{"C03"}, Min: 1,
 		Doc: "the stores that mark a node as persisted (dirty=false, source=&name, shared=true, child pointer → name) must execute only after Persist.Store of that node returned nil " +
 			"(control-dependent on its nil result, or after the barrier on the success edge).",
@@ -311,7 +316,7 @@ func runERRPROPFlush(c *Ctx) {
 	}
 	for _, ci := range CallsOf(sh.F) {
 		for _, callee := range c.Facts.Callees(ci) {
-			if !c.Facts.MayStore[callee] || callee.Parent() != nil {
+			if callee != flushNodeStore(c) && (!c.Facts.MayStore[callee] || callee.Parent() != nil) {
 				continue
 			}
 			ei := ir.ErrorResultIndex(callee.Signature)
@@ -374,7 +379,7 @@ func runROOTSWAP(c *Ctx) {
 					continue
 				}
 				for _, callee := range c.Facts.Callees(ci) {
-					if !c.Facts.MayStore[callee] || callee.Parent() != nil {
+					if callee != flushNodeStore(c) && (!c.Facts.MayStore[callee] || callee.Parent() != nil) {
 						continue
 					}
 					ei := ir.ErrorResultIndex(callee.Signature)
@@ -909,4 +914,97 @@ func keyParts(v ssa.Value) (parts []ssa.Value, fs string, env map[*ssa.Parameter
 		v = ir.Origin(rets[0].Results[0])
 	}
 	return nil, "", nil
+}
+
+// ---- FLUSHNAME ---------------------------------------------------------------------
+
+func runFLUSHNAME(c *Ctx) {
+	P := c.P
+	sh := findFlush(c)
+	if sh == nil {
+		return
+	}
+	F := sh.F
+	ei := ir.ErrorResultIndex(F.Signature)
+	if ei < 0 || F.Signature.Results().Len() < 2 {
+		c.AnchorMissing("a (name, error) result of the function that drives the node store")
+		return
+	}
+	ni := 1 - ei
+	if ni < 0 || ni > 1 {
+		ni = 0
+	}
+	// the names handed back by the node store
+	nodeStore, _ := persistingStoreFn(c)
+	stored := map[ssa.Value]bool{}
+	for _, ci := range CallsOf(F) {
+		call, isCall := ci.(*ssa.Call)
+		if !isCall || call.Referrers() == nil {
+			continue
+		}
+		for _, callee := range c.Facts.Callees(ci) {
+			if callee != nodeStore && (!c.Facts.MayStore[callee] || callee.Parent() != nil) {
+				continue
+			}
+			for _, r := range *call.Referrers() {
+				if ex, ok := r.(*ssa.Extract); ok && ex.Index == 0 {
+					stored[ex] = true
+				}
+			}
+		}
+	}
+	emptyKnown := func(b *ssa.BasicBlock) string {
+		for _, f := range ir.FactsAt(b) {
+			if tv, tnn, ok := ir.NilTest(f.Cond); ok && f.Truth != tnn {
+				if _, isRoot := rootLoad(tv); isRoot {
+					return "root == nil"
+				}
+			}
+			cond, truth := f.Cond, f.Truth
+			if u, ok := cond.(*ssa.UnOp); ok && u.Op == token.NOT {
+				cond, truth = u.X, !truth
+			}
+			if call, ok := cond.(*ssa.Call); ok && truth {
+				if sc := ir.Callee(call.Call); sc != nil && sc.Name() == "isEmpty" {
+					return "isEmpty(root node)"
+				}
+			}
+		}
+		return ""
+	}
+	for _, r := range ir.Returns(F) {
+		if ei >= len(r.Results) || !ir.IsNilConst(r.Results[ei]) {
+			continue
+		}
+		v := ir.ResolveCell(r.Results[ni])
+		if ex, ok := ir.Origin(r.Results[ni]).(*ssa.Extract); ok && stored[ex] {
+			v = ex
+		}
+		pos := P.InstrPos(r)
+		what := "success return of " + ir.FuncName(F)
+		switch {
+		case stored[v]:
+			c.OK(pos, what, "reports the name the node store returned for the root", false)
+		case isEmptyStringConst(v):
+			if why := emptyKnown(r.Block()); why != "" {
+				c.OK(pos, what+" with the empty name", "only under "+why+": the tree has no entries", false)
+			} else {
+				c.Violation(F, pos, "success with the empty name for a tree that may have entries",
+					"flush returns (\"\", nil) on a path where the tree is not known to be empty: MakeRoot records 'no root node' next to the tree's size, nothing was written, and the version it hands out cannot be loaded — although it reported success")
+			}
+		default:
+			c.Violation(F, pos, "success with a name the node store did not return",
+				"flush reports success with "+pathDesc(ir.Sym(v))+" as the root's name, which is not the name returned by the node store for the root: the Root handed out names something else than what was written")
+		}
+	}
+}
+
+func isEmptyStringConst(v ssa.Value) bool {
+	k, ok := v.(*ssa.Const)
+	return ok && k.Value != nil && k.Value.Kind() == constant.String && constant.StringVal(k.Value) == ""
+}
+
+func flushNodeStore(c *Ctx) *ssa.Function {
+	f, _ := persistingStoreFn(c)
+	return f
 }
